@@ -111,15 +111,15 @@ def run(ctx):
             shape = ("spread-flattened arguments",)
         shapes[key] = shape
         if label in ELEMENTWISE and in_loop and fn in (BINOP, BCALL) and not (fn == BINOP and shape == ("plain", 1) and label == "Via"):
-            ok = shape is not None and shape[0] == "indexed" and shape[1] == 2 and all(shape[2:])
+            ok = None if shape is None else (shape[0] == "indexed" and shape[1] == 2 and all(shape[2:]))
             ctx.inst("C13.R2", key, ok, "argument list %s -> %s (want [item, Number(idx)] iff arity().can_accept(2), else [item])" % (S.show(a)[:160], shape), H.loc(n))
         elif label == "Reduce":
-            ok = shape is not None and shape[0] == "indexed" and shape[1] == 3 and all(shape[2:])
+            ok = None if shape is None else (shape[0] == "indexed" and shape[1] == 3 and all(shape[2:]))
             ctx.inst("C13.R2", key, ok, "argument list -> %s (want [acc, item, Number(idx)] iff can_accept(3), else [acc, item])" % (shape,), H.loc(n))
         elif label == "Call":
             ctx.inst("C13.R2", key, True, "direct call: evaluated arguments, spreads flattened", H.loc(n))
         else:
-            ok = shape == ("plain", 1)
+            ok = None if shape is None else shape == ("plain", 1)
             ctx.inst("C13.R2", key, ok, "argument list %s -> %s (one argument)" % (S.show(a)[:100], shape), H.loc(n))
     # the item passed is the element at the loop position of the list operand
     # ---------------- R3 result handling
